@@ -62,7 +62,17 @@ def rediscover_rule(ctx, r):
 
         # comparisons of the match's start / end with range.end, wherever their answers go
         def of_range(e):
-            return any(y.k == "field" and y[3] == "range" for y in walk(e))
+            # the captured `range` itself, or a captured local that the parent took out of it (`let end = range.end`)
+            from ..flow import captured_expr
+            for y in walk(e):
+                if y.k == "field" and y[3] == "range":
+                    return True
+                if y.k == "field" and str(y[2]).startswith("{closure}"):
+                    ce = captured_expr(facts, c, y[3])
+                    if ce is not None and any(z.k == "field" and z[3] == "end" and any(w.k == "arg" and w[2] == "range" for w in walk(z))
+                                              for z in walk(ce)):
+                        return True
+            return False
 
         def tests_for(getter, relation):
             out = []
